@@ -7,6 +7,7 @@ import (
 	"errors"
 	"fmt"
 	"math/rand/v2"
+	"net"
 	"sort"
 	"strings"
 	"sync"
@@ -68,6 +69,7 @@ func runC19Round(dir string, g *rand.Rand, nplugins, callers, perPlugin, perCall
 		res.Note("runtime: %v", err)
 		return
 	}
+	slowEntered := make(chan struct{}, 1)
 	var inUpdate, inHandler atomic.Int64
 	var overlapUU, overlapUH, overlapHU atomic.Int64
 	var mu sync.Mutex
@@ -85,6 +87,19 @@ func runC19Round(dir string, g *rand.Rand, nplugins, callers, perPlugin, perCall
 		enter := rig.Tick()
 		arg := cloneUpdates(u)
 		time.Sleep(time.Duration(50+len(u)*20) * time.Microsecond)
+		if len(u) > 0 && strings.Contains(u[0].ContainerId, ".slow") {
+			// a long-running callback; its sender goes away meanwhile (see below)
+			select {
+			case slowEntered <- struct{}{}:
+			default:
+			}
+			for i := 0; i < 150; i++ {
+				time.Sleep(time.Millisecond)
+				if inHandler.Load() > 0 {
+					overlapUH.Add(1)
+				}
+			}
+		}
 		if inHandler.Load() > 0 {
 			overlapUH.Add(1)
 		}
@@ -219,6 +234,52 @@ func runC19Round(dir string, g *rand.Rand, nplugins, callers, perPlugin, perCall
 		return
 	}
 
+	// a plugin's connection goes away while its update is being processed by the callback: the callback
+	// still must not overlap the next request or another plugin's update
+	if len(plugins) >= 2 {
+		victim, other := plugins[len(plugins)-1], plugins[0]
+		id := tag + "pXslow"
+		sc := &c19Call{ID: id, Plugin: len(plugins) - 1, Sent: []*api.ContainerUpdate{{ContainerId: id + ".slow0"}}}
+		vdone := make(chan struct{})
+		go func() {
+			defer close(vdone)
+			sc.Call = rig.Tick()
+			sc.Failed, sc.Err = victim.Stub.UpdateContainers(cloneUpdates(sc.Sent))
+			sc.Ret = rig.Tick()
+		}()
+		select {
+		case <-slowEntered:
+			go victim.StopStub()
+			time.Sleep(2 * time.Millisecond)
+			var w2 sync.WaitGroup
+			w2.Add(2)
+			go func() {
+				defer w2.Done()
+				b := rt.A.BlockPluginSync()
+				c06Issue(rt.A, api.Event_RUN_POD_SANDBOX, tag+"qXafterdrop")
+				b.Unblock()
+			}()
+			go func() {
+				defer w2.Done()
+				oid := tag + "pYafterdrop"
+				oc := &c19Call{ID: oid, Plugin: 0, Sent: []*api.ContainerUpdate{{ContainerId: oid + ".c2"}}}
+				oc.Call = rig.Tick()
+				oc.Failed, oc.Err = other.Stub.UpdateContainers(cloneUpdates(oc.Sent))
+				oc.Ret = rig.Tick()
+				mu.Lock()
+				calls[oid] = oc
+				mu.Unlock()
+			}()
+			w2.Wait()
+			res.Count("disconnects_during_callback", 1)
+		case <-time.After(20 * time.Second):
+			res.Note("%s: slow update never reached the callback", tag)
+		}
+		if st := rig.Await(vdone, 5*time.Second, 30*time.Second); st == "hang" {
+			res.Violate("C19/hang", "UpdateContainers of a stopped stub never returned; goroutines:\n"+nriStacks(), what)
+		}
+	}
+
 	// ---------------------------------------------------------------- oracles
 	if n := overlapUU.Load(); n > 0 {
 		res.Violate("C19/concurrent-updates", fmt.Sprintf("the update callback ran concurrently with itself %d times", n), what)
@@ -228,6 +289,9 @@ func runC19Round(dir string, g *rand.Rand, nplugins, callers, perPlugin, perCall
 	}
 	for _, f := range fnLog {
 		c := calls[f.ID]
+		if c == nil && strings.HasSuffix(f.ID, "pXslow") {
+			continue // the sender was stopped mid-call; only the overlap monitors apply to it
+		}
 		if c == nil {
 			res.Violate("C19/unknown-update", fmt.Sprintf("the callback received an update list no plugin sent: %v", f.Arg), what)
 			continue
@@ -348,6 +412,9 @@ func runC19(c *ev.ChildEnv, res *ev.Result) {
 			res.Seen("never-started-stub")
 		}
 	}
+	if c.Batch == 1%c.Batches {
+		c19DuringStart(c, res)
+	}
 	rounds := tierN(c.Tier, 12, 200) / c.Batches
 	for i := 0; i < rounds; i++ {
 		tag := fmt.Sprintf("c19b%dr%d", c.Batch, i)
@@ -381,4 +448,74 @@ func init() {
 		Parallel: func(string) int { return 4 },
 		Run:      runC19,
 	})
+}
+
+// c19DuringStart: (1) UpdateContainers while Start is still in progress (blocked in the dialer) must report
+// "no service" instead of blocking; (2) an update issued from the Configure handler of a plugin that has
+// registered reaches the callback exactly once and Start completes.
+func c19DuringStart(c *ev.ChildEnv, res *ev.Result) {
+	release := make(chan struct{})
+	st, err := stub.New(c19Nop{}, stub.WithPluginName("starting"), stub.WithPluginIdx("01"), stub.WithOnClose(func() {}),
+		stub.WithDialer(func(string) (net.Conn, error) { <-release; return nil, errors.New("no runtime") }))
+	if err == nil {
+		sdone := make(chan struct{})
+		go func() { defer close(sdone); st.Start(context.Background()) }()
+		time.Sleep(20 * time.Millisecond)
+		d := make(chan struct{})
+		var uerr error
+		go func() { defer close(d); _, uerr = st.UpdateContainers([]*api.ContainerUpdate{{ContainerId: "x"}}) }()
+		if rig.Await(d, time.Second, 10*time.Second) == "hang" {
+			res.Violate("C19/not-started-blocks", "UpdateContainers on a stub whose Start is still in progress blocks instead of reporting that it has no service", nil)
+		} else if !errors.Is(uerr, stub.ErrNoService) {
+			res.Violate("C19/not-started-error", fmt.Sprintf("UpdateContainers on a stub whose Start is still in progress returned %v, want ErrNoService", uerr), nil)
+		}
+		close(release)
+		<-sdone
+		res.Eval()
+		res.Seen("stub-start-in-progress")
+	}
+	// update from the Configure handler
+	dir := c.Dir + "/cfgupd"
+	mkdirAll(dir)
+	rt, err := rig.NewRuntime(dir)
+	if err != nil {
+		return
+	}
+	var got atomic.Int32
+	var arg []*api.ContainerUpdate
+	rt.UpdateFn = func(_ context.Context, u []*api.ContainerUpdate) ([]*api.ContainerUpdate, error) {
+		got.Add(1)
+		arg = cloneUpdates(u)
+		return c19Expect(u)
+	}
+	if rt.Start() != nil {
+		return
+	}
+	defer rt.Stop()
+	sent := []*api.ContainerUpdate{{ContainerId: "cfg.c1"}, {ContainerId: "cfg.c2"}}
+	sent[0].SetLinuxCPUShares(77)
+	var failed []*api.ContainerUpdate
+	var uerr error
+	var p *rig.Plugin
+	p = rig.NewPlugin("cfgupd", "20", 0, rig.Handlers{
+		Configure: func(string, string, string) (api.EventMask, error) {
+			failed, uerr = p.Stub.UpdateContainers(cloneUpdates(sent))
+			return 0, nil
+		},
+	})
+	d := make(chan struct{})
+	var cerr error
+	go func() { defer close(d); cerr = p.Connect(rt.Sock) }()
+	st2 := rig.Await(d, 5*time.Second, 30*time.Second)
+	res.Eval()
+	if st2 == "hang" {
+		res.Violate("C19/update-from-configure-deadlocks", "a plugin issuing an unsolicited update from its Configure handler never finishes Start; goroutines:\n"+nriStacks(), nil)
+		return
+	}
+	defer p.StopStub()
+	wantFailed, _ := c19Expect(sent)
+	if cerr != nil || uerr != nil || got.Load() != 1 || !updatesEqual(arg, sent) || !updatesEqual(failed, wantFailed) {
+		res.Violate("C19/update-from-configure", fmt.Sprintf("update issued from the Configure handler: start err=%v, update err=%v, callback invocations=%d, argument equal=%v, failed list equal=%v", cerr, uerr, got.Load(), updatesEqual(arg, sent), updatesEqual(failed, wantFailed)), nil)
+	}
+	res.Seen("update-from-configure")
 }
